@@ -190,14 +190,19 @@ def run(ctx):
                 if any(got[k] is not getattr(a4, k) for k in ("symbolic_model", "sensor_models", "calibration_map", "config")):
                     ctx.fail("inverse-touches-rest", "re-assembling noise replaced a parameter other than the noise maps", case)
     # --- fit
-    nfit = 3 if ctx.quick else 12
+    nfit = 4 if ctx.quick else 14
     for i in range(nfit):
         d = gen.tame_definition(ctx.rng, n_state=2, n_control=ctx.rng.choice([0, 1]), n_sensors=1, max_readings=ctx.rng.choice([1, 2]))
-        if i % 4 == 1:
+        if i % 4 == 1 or i % 4 == 3:
             # constant-velocity model: passes the (slow) extra validation quickly, so extra_validation=True can be exercised
             xs, vs, us, dts = sympy.symbols("px pv pu dt")
             d = gen.Definition(dts, [xs, vs], [us], [], {xs: xs + dts * vs, vs: vs + dts * us}, {"odo": {"speed": vs, "place": xs}})
         process, sensor = eh.make_noises(ctx.rng, d)
+        integer_matrix = (i % 4 == 3)
+        if integer_matrix:
+            # "all finite training matrices": small INTEGER data against large noises (every normalised innovation is below 1)
+            process = {k2: v2 + 40 for k2, v2 in process.items()}
+            sensor = {k2: {r: v2 + 60 for r, v2 in rd.items()} for k2, rd in sensor.items()}
         with fk.quiet():
             ad = C16.make_adapter(d, process, sensor, {}, None)
             if i % 2 == 1:   # a non-default configuration must survive fitting too
@@ -207,6 +212,9 @@ def run(ctx):
         width = len(d.control) + sum(len(rd) for rd in d.sensors.values())
         nrows = ctx.rng.choice([2, 3, 6])
         X = np.array([[float(gen.dyadic(ctx.rng, -2, 2)) for _ in range(width)] for _ in range(nrows)], dtype=float)
+        if integer_matrix:
+            X = np.array([[ctx.rng.choice([-1, 0, 1, 1]) for _ in range(width)] for _ in range(6)], dtype=np.int64)
+            ctx.count("fit_on_integer_matrix")
         before = ad.get_params()
         keep = {k: before[k] for k in ("symbolic_model", "sensor_models", "calibration_map", "config")}
         sens_shape = {k: sorted(map(str, rd)) for k, rd in before["sensor_noises"].items()}
